@@ -11,7 +11,8 @@ Outcome alphabet (as in models/SolveT.tla) and its concretisation variants:
     nanw   0: A = 1/0 (np.float64, RuntimeWarning)   1: B = log(0)   2: A = 0/0
            3: a guarded helper warns with UserWarning, then A = nan   4: ... with a DeprecationWarning subclass, then B = inf
     nans   0: B = nan   1: A = +inf   2: B = -inf      (stored silently)
-    exc    0: raise Boom   1: Python 1.0/0.0 (ZeroDivisionError)
+    exc    0: raise Boom   1: Python 1.0/0.0 (ZeroDivisionError)   2: IndexError (a table runs out)   3: KeyError
+           4: the library's own SolutionError raised by model code   5: NonConvergenceError raised by model code (e.g. a nested solve)
 
 A finite outcome reached from a non-finite state *assigns* fresh finite values (incrementing NaN
 leaves NaN). C is an endogenous variable that is NOT a check variable and jumps by 100 every pass; X is
@@ -25,7 +26,7 @@ import fsic
 
 TOL = 0.5
 
-VARIANTS = {'conv': 4, 'moved': 7, 'nanw': 5, 'nans': 3, 'exc': 2}
+VARIANTS = {'conv': 4, 'moved': 7, 'nanw': 5, 'nans': 3, 'exc': 6}
 
 
 def _real(x):
@@ -147,8 +148,8 @@ class ScriptedBase:
                 self._A[t] = (self._A[t] if abs(self._A[t]) < 1e300 else 0.0) - 1.0
             elif v == 6:
                 # finite, far from anything before, and so large that the SUM of the check values overflows although each is finite
-                self._A[t] = 1.2e308 - 1e292 * s
-                self._B[t] = 1.1e308 - 1e292 * s
+                self._A[t] = 1.2e308 - 1e302 * s    # (steps far above the spacing of doubles at this magnitude, about 2e292)
+                self._B[t] = 1.1e308 - 1e302 * s
             elif v == 5:
                 # whole-series assignment from a list REBINDS the array of a check variable during the solve
                 vals = self._B.tolist()
@@ -180,6 +181,16 @@ class ScriptedBase:
         elif o == 'exc':
             if v == 0:
                 raise Boom('eval')
+            if v == 2:
+                return [1.0, 2.0][t + 7]            # IndexError: whatever its class, an exception of model code is wrapped
+            if v == 3:
+                return {'a': 1.0}['missing']         # KeyError
+            if v == 4:
+                from fsic.exceptions import SolutionError
+                raise SolutionError('raised by the model itself')
+            if v == 5:
+                from fsic.exceptions import NonConvergenceError
+                raise NonConvergenceError('a nested solve did not converge')
             self._A[t] = 1.0 / 0.0
         else:
             raise AssertionError('unknown outcome %r' % (o,))
